@@ -24,12 +24,27 @@ def valid_ubx_frames(s):
         k += 1
 
 
-def run_scan(events, interval_ms, idle):
+def run_scan(events, interval_ms, idle, pre_events=None):
     clock = Q.VClock()
     srv, T, ok = BK.tty_server()
     T.time = clock
     port = srv.serial_port
     port.clock = clock
+    if pre_events is not None:
+        # an earlier scan on the same object that ends in the middle of a frame / sentence
+        port.rx = [(d if d is not None else b'', dt) for d, dt in pre_events]
+        o_read = port.read
+
+        def read0(n):
+            if port.rx:
+                return o_read(n)
+            clock.ms += idle
+            return b''
+        port.read = read0
+        srv.scan(0.05)
+        port.read = o_read
+        port.rx = []
+        clock.ms = 0
     port.rx = [(d if d is not None else b'', dt) for d, dt in events]
 
     # idle reads
@@ -108,8 +123,12 @@ def check(tier, seed):
             if rng.random() < 0.3 and events:
                 events.insert(rng.randrange(len(events)), (None, rng.choice([3, 100])))
             batch.append((kind, s, interval, idle, events))
-        for kind, s, interval, idle, events in batch:
-            r, t, fl = run_scan(events, interval, idle)
+        for bi, (kind, s, interval, idle, events) in enumerate(batch):
+            pre = None
+            if bi % 3 == 0:
+                cutf = G.frame(6, 1, b'\x01\x02\x03')
+                pre = [(bytes([b]), 1) for b in rng.choice([cutf[:-3], cutf + cutf[:5], b'$GPRMC,1*', G.nmea(b'GPGGA,7') + b'$GP', b'\xb5\x62\x0a\x04\xe8\x03'])]
+            r, t, fl = run_scan(events, interval, idle, pre)
             evtok = ','.join(('N' if d is None else C.hexs(d)) + f'@{dt}' for d, dt in events) or '-'
             cmd = f'scan {interval} {idle} {evtok}'
             impl = f'{r} t={t}'
